@@ -88,6 +88,26 @@ def main():
                                 pass
                     except Exception as e:  # noqa: BLE001
                         fail("index round trip raised", {"paths": [len(pool[i]) for i in combo], "version": ver, "ext": ext, "exc": repr(e)[:300]})
+        # conflict stages, incl. missing earlier stages ({2,3}, {1,3}, {2}, {3})
+        for stages in ((1, 2, 3), (2, 3), (1, 3), (1, 2), (1,), (2,), (3,)):
+            for ver in (2, 3, 4):
+                cases += 1
+                path = os.path.join(d, f"conf{ver}_{len(stages)}")
+                sides = {st: entry(st) for st in stages}
+                ents = {b"a/conflict": IX.ConflictedIndexEntry(ancestor=sides.get(1), this=sides.get(2), other=sides.get(3)), b"z": entry(1)}
+                try:
+                    with open(path, "wb") as f:
+                        from dulwich.pack import SHA1Writer
+                        w = SHA1Writer(f)
+                        IX.write_index_dict(w, ents, version=ver)
+                        w.close()
+                    idx = IX.Index(path)
+                    got = idx[b"a/conflict"]
+                    have = tuple(st for st, side in ((1, got.ancestor), (2, got.this), (3, got.other)) if side is not None)
+                    if have != stages:
+                        fail("conflict stages do not round trip", {"written": list(stages), "read": list(have), "version": ver})
+                except Exception as e:  # noqa: BLE001
+                    fail("conflict round trip raised", {"stages": list(stages), "version": ver, "exc": repr(e)[:200]})
         git_cases = 0
         if tier == "thorough":
             # (c) spec validation against C git: both directions for v4 path compression
